@@ -397,5 +397,7 @@ def run(ctx) -> None:
     check_label_lexicon(Renamed(ctx, {'W2': 'T6'}, key_filter=lambda k: True), tpl)
     check_w1_w2(Renamed(ctx, {'W2': 'T6'}, key_filter=lambda k: True), tpl)
     ctx.analysed['report_cost_lines'] = len(tpl)
+    from rules.helper_contract import run_shared
+    run_shared(ctx, None, 'T10', 3)
     ctx.undecided('numeric values of the cost correlations')
     ctx.assume('cost lines with a literal label and no injection/production word are compared with the sibling writer by C09 W2 only')
